@@ -58,6 +58,17 @@ AddStep(b) ==
                    ELSE AppendNext(DeleteNext(s1, LE(mcnt, CountWidth[kind])), LE(mcnt + 1, CountWidth[kind])))
              ELSE s1
 
+\* the same step over plain integers as APA_CkDelta.tla states it (Apalache proves that one inductive for all Lengths
+\* and counts); the two transcriptions agree on samples around every byte boundary
+ApaS4(x) == LET b == LE(x, 4) IN b[1] + b[2] + b[3] + b[4]
+ApaStep(ms, ml, n, b, mc) == (ms + 2048 - ApaS4(ml) + ApaS4(ml + n) + b - ApaS4(mc) + ApaS4(mc + 1)) % 256
+MechStep(ms, ml, n, b, mc) ==
+  LET s1 == AddNext(AppendNext(DeleteNext(ms, LE(ml, 4)), LE(ml + n, 4)), b)
+  IN AppendNext(DeleteNext(s1, LE(mc, 4)), LE(mc + 1, 4))
+ASSUME \A ml \in {36, 200, 255, 256, 65280, 65535, 65536, 16777215} : \A n \in {1, 8, 56, 255, 256, 65535} :
+         \A b \in {0, 7, 255} : \A mc \in {0, 1, 254, 255, 256, 65535, 65536, 16777215} : \A ms \in {0, 1, 128, 255} :
+           ApaStep(ms, ml, n, b, mc) = MechStep(ms, ml, n, b, mc)
+
 \* SLIT: replace the two mirrored cells (one cell when a = b)
 SlitStep(e) ==
   LET n == ctor.n
